@@ -30,6 +30,9 @@ func c13(c *Ctx) {
 	requesterGuardRule(c, "R7")
 	fastSyncHandoverRule(c, "R8")
 	quorumRule(c, "R9")
+	shared(c, "C16", func(c *Ctx) { valsetCacheRule(c, "R2") })
+	shared(c, "C14", func(c *Ctx) { uniformApplicationRule(c, "R5") })
+	shared(c, "C02", c02R2)
 }
 
 func c13R1(c *Ctx) {
